@@ -5,6 +5,7 @@ use crate::chan::gen::{ConcFamily, ConcProfile};
 use crate::chan::spmc::SpmcFamily;
 use crate::chan::topic::TopicFamily;
 use crate::lock::LockFamily;
+use crate::cache::{CacheFamily, CacheProfile};
 use crate::core::batch::{Family, Violation};
 use crate::core::check::{lane, CheckSpec};
 use serde_json::Value;
@@ -28,6 +29,18 @@ fn spmc(faults: bool, asyncness: u8, cancel: bool, lifecycle: bool) -> SpmcFamil
 fn topic(faults: bool, asyncness: u8, cancel: bool, lifecycle: bool, dynamic_subs: bool) -> TopicFamily {
   TopicFamily { faults, asyncness, cancel, lifecycle, dynamic_subs }
 }
+
+fn cache(f: impl FnOnce(&mut CacheProfile)) -> CacheFamily {
+  let mut p = CacheProfile { faults: true, expiry: false, loader: false, listener: false, bounded: false, async_clients: true, bulk_ops: true };
+  f(&mut p);
+  CacheFamily { profile: p }
+}
+
+const CACHE_ASSUME: &[&str] = &[
+  "shuttle executes every atomic as SeqCst; the cache's own std atomics (entry timestamps, metrics) are not scheduling points - interleavings are explored at lock, channel and park operations",
+  "rayon is replaced by a sequential shim: interleavings between the per-shard closures of one multi_* call are not explored",
+  "bounds: 2-4 clients x <=8 operations, 4 keys, shards 1/2/4",
+];
 
 pub fn check_spec(id: &str) -> Option<CheckSpec> {
   let assumptions: Vec<String> = CHAN_ASSUME.iter().map(|s| s.to_string()).collect();
@@ -135,6 +148,50 @@ pub fn check_spec(id: &str) -> Option<CheckSpec> {
       assumptions,
       notes: vec!["papaya::HashMap runs uninstrumented (atomically between scheduling points)".into()],
     },
+    "C11" => CheckSpec {
+      property: id.into(),
+      level: "exploration",
+      lanes: vec![
+        lane("cache/unbounded", cache(|_| {}), 40_000, 1_200_000),
+        lane("cache/bounded", cache(|p| p.bounded = true), 40_000, 1_200_000),
+        lane("cache/bounded/loader+listener", cache(|p| { p.bounded = true; p.loader = true; p.listener = true; }), 30_000, 900_000),
+        lane("cache/unbounded/no-faults", cache(|p| p.faults = false), 20_000, 600_000),
+      ],
+      assumptions: CACHE_ASSUME.iter().map(|s| s.to_string()).collect(),
+      notes: vec!["per-key oracle: a read may return only a value of its own key whose write was invoked before the read returned and that was not definitely overwritten/removed (an operation that began after the write completed and completed before the read began); counters never exceed the computes started; on never-forgetting configurations compute increments are exact and or_insert inserts once".into()],
+    },
+    "C13" => CheckSpec {
+      property: id.into(),
+      level: "exploration",
+      lanes: vec![
+        lane("cache/bounded", cache(|p| p.bounded = true), 40_000, 1_200_000),
+        lane("cache/bounded/loader", cache(|p| { p.bounded = true; p.loader = true; }), 30_000, 900_000),
+        lane("cache/bounded/no-faults", cache(|p| { p.bounded = true; p.faults = false; }), 20_000, 600_000),
+      ],
+      assumptions: CACHE_ASSUME.iter().map(|s| s.to_string()).collect(),
+      notes: vec!["quiescence = all clients joined, run_maintenance() repeated until residents and current_cost stop changing (<=40 passes)".into()],
+    },
+    "C15" => CheckSpec {
+      property: id.into(),
+      level: "exploration",
+      lanes: vec![
+        lane("cache/loader/unbounded", cache(|p| { p.loader = true; }), 40_000, 1_200_000),
+        lane("cache/loader/bounded", cache(|p| { p.loader = true; p.bounded = true; }), 30_000, 900_000),
+      ],
+      assumptions: CACHE_ASSUME.iter().map(|s| s.to_string()).collect(),
+      notes: vec![],
+    },
+    "C16" => CheckSpec {
+      property: id.into(),
+      level: "exploration",
+      lanes: vec![
+        lane("cache/listener/bounded", cache(|p| { p.listener = true; p.bounded = true; }), 40_000, 1_200_000),
+        lane("cache/listener/unbounded", cache(|p| { p.listener = true; }), 20_000, 600_000),
+        lane("cache/listener/expiry", cache(|p| { p.listener = true; p.expiry = true; p.bounded = true; }), 30_000, 900_000),
+      ],
+      assumptions: CACHE_ASSUME.iter().map(|s| s.to_string()).collect(),
+      notes: vec![],
+    },
     "C10" => CheckSpec {
       property: id.into(),
       level: "exploration",
@@ -182,6 +239,7 @@ pub fn replay(path: &str) -> i32 {
     "CH-CONC" => run_family_replay(conc("replay", |_| {}), &v),
     "CH-SPMC" => run_family_replay(spmc(true, 2, true, true), &v),
     "CH-TOPIC" => run_family_replay(topic(true, 2, true, true, true), &v),
+    "CACHE-CONC" => run_family_replay(cache(|_| {}), &v),
     "LOCK" => run_family_replay(LockFamily { faults: true, cancel: true, starve: false }, &v),
     _ => Err(format!("unknown family {fam}")),
   };
